@@ -587,6 +587,21 @@ class Gen(object):
                     v["taint"] = v["taint"] or (info is not None)
             return
         # dim 2
+        # a standard ONE cell of which fails the frequency-range test while the other names a visible parameter (often one
+        # this vnacal_new_t does not hold yet, possibly behind a correlated -> unknown chain): the refusal must leave the
+        # parameter table untouched (c16_rejected_standard_unchanged: no reference taken for the other cell)
+        if v["f0"] is not None and self.rng.random() < 0.12:
+            lo, hi = v["f0"], v["f0"] + nf - 1
+            bad = [h for h in self.visible() if self.pinfo.get(h, ("?",))[0] == "v" and self.pinfo[h][1]
+                   and not (self.pinfo[h][1][0] <= lo and self.pinfo[h][1][-1] >= hi)]
+            other = [h for h in self.visible() if h >= 3 and h not in bad]
+            if bad and other:
+                h1, h2 = self.rng.choice(other), self.rng.choice(bad)
+                if self.rng.random() < 0.3:
+                    h1, h2 = h2, h1
+                self.do("addstd %d 2 %d %d %d %s" % (i, h1, h2, 2 * nf, " ".join(["3 5"] * (2 * nf))))
+                v["taint"] = True
+                return
         if r < 0.25:
             st = self.do("addstd %d 4 0 1 1 0 0" % i)
             if st["r"] == "0":
@@ -987,6 +1002,19 @@ def directed_scripts():
         return sc
     out["shared_unknown_a"] = shared_scenario([0, 1, 0, 2, 1, 3, 2])
     out["shared_unknown_b"] = shared_scenario([1, 0, 3, 0, 2, 1])
+    # c16_rejected_standard_unchanged / c16_acceptable_standard_added: two-cell standards in which one cell is not
+    # acceptable (out of the frequency range, unknown handle, negative, deleted and not held) and the OTHER cell names a
+    # parameter the vnacal_new_t does not hold yet (scalar, unknown, correlated -> unknown -> vector chain): the refusal
+    # must not register it (hold counts in the digest); then the same cells in acceptable standards
+    m20 = " ".join(["3 5"] * 20)
+    out["refused_standard_unchanged"] = [
+        "mks 20 5", "mkv 3 1 2 3 8 23 -26 -5 -57 50", "mku 3", "mkv 10 1 2 3 4 5 6 7 8 9 10 " + " ".join(["7 1"] * 10),
+        "mku 6", "mkc 7 10", "mks 9 9",
+        "nalloc 0 3 2 10", "addstd 0 2 3 6 20 " + m20, "setf 0 1",
+        "addstd 0 2 8 4 20 " + m20, "addstd 0 2 4 8 20 " + m20, "addstd 0 2 5 4 20 " + m20, "addstd 0 2 9 30 20 " + m20,
+        "addstd 0 2 9 -1 20 " + m20, "addstd 0 2 -7 9 20 " + m20, "delp 9", "addstd 0 2 3 9 20 " + m20,
+        "addstd 0 2 8 5 20 " + m20, "delp 8", "delp 7", "addstd 0 2 8 3 20 " + m20, "addstd 0 2 3 4 20 " + m20,
+        "nfree 0", "mks 1 2", "free"]
     out["two_port_and_unknown"] = [
         "mks 32 0", "mku 3", "nalloc 0 0 1 2", "setf 0 1", "addstd 0 1 0 2 0 0 0 0", "addstd 0 1 1 2 64 0 64 0",
         "addstd 0 1 2 2 -64 0 -64 0", "addstd 0 1 4 2 36 4 30 -4", "getv 4 1", "solve 0 1", "getv 4 1", "getv 4 2", "getv 4 3",
@@ -1003,14 +1031,17 @@ def run(ctx):
     ctx.trusted_base = [
         "Coq 8.16.1 kernel (coqc); vm_compute for the concrete examples / refutation witnesses; no native_compute",
         "axioms: none (Print Assumptions: Closed under the global context for every theorem of Properties_C16.v)",
-        "hand-written model coq/CalTab/CalTabModel.v tied to the library by op-script correspondence on every run",
+        "hand-written model coq/CalTab/CalTabModel.v tied to the library by op-script correspondence on every run "
+        "(the executable invariant inv_b, acyclicity of the `other` links included, is evaluated on every model state)",
         "extraction (ExtrOcamlBasic only) + ocaml/drv_caltab.ml printing glue; harness/caltab_harness.c",
         "numeric solver replaced by an oracle bit and the measured values of the script (ideal VNA)",
         "gcc, ASan/UBSan/LSan",
     ]
     ctx.assumptions = ["the numeric part of vnacal_new_solve is outside the model: its success is an oracle input and "
                        "the solved value of an unknown parameter is the measured value supplied by the script",
-                       "rational-function interpolation is not modelled (values asked at knots only)"]
+                       "rational-function interpolation is not modelled (values asked at knots only)",
+                       "vnacal_make_vector_parameter: the caller's gamma array has at least `frequencies` entries (the C "
+                       "code cannot check it; the model answers RUndef otherwise and the script syntax cannot express it)"]
     ctx.rule = ("op scripts (make/delete parameter, new_alloc, set_frequency_vector, add_*, solve, add/delete/find "
                 "calibration, get_*, properties, new_free, vnacal_free) generated against the model and replayed on the "
                 "library; one evaluation = one op line compared; distinct non-trivial = distinct (op, outcome, "
@@ -1073,7 +1104,8 @@ def run(ctx):
             dir_bad.append(name)
             report("directed " + name, script, r)
     ctx.obligation("tie:directed scenarios (slot growth 1/8/16, delete-then-add, existing name, handle reuse, "
-                   "delete while held, large colliding parameter sets, unknowns shared across grids)", not dir_bad,
+                   "delete while held, large colliding parameter sets, unknowns shared across grids, two-cell standards "
+                   "with one unacceptable cell)", not dir_bad,
                    "failing: " + ",".join(dir_bad))
 
     # corpus
